@@ -135,12 +135,22 @@ def nexus_quote(label):
     return label
 
 
-def spec_to_newick(spec, rooting=None, lengths=True, terminator=";"):
+def raw_underscore_quote(label):
+    """Like nexus_quote, but labels whose only special character is '_' are left unquoted (the reader then
+    turns the underscores into spaces unless preserve_underscores is set)."""
+    if label is not None and "_" in label and all(c.isalnum() or c == "_" for c in label):
+        return label
+    return nexus_quote(label)
+
+
+def spec_to_newick(spec, rooting=None, lengths=True, terminator=";", quote=None):
+    quote = quote or nexus_quote
+
     def rec(s):
         out = ""
         if s[2]:
             out = "(" + ",".join(rec(c) for c in s[2]) + ")"
-        out += nexus_quote(s[0]) if s[0] is not None else ""
+        out += quote(s[0]) if s[0] is not None else ""
         if lengths and s[1] is not None:
             out += ":" + repr(s[1])
         return out
